@@ -256,7 +256,7 @@ def main():
         "traces_validated_against_impl": tot["executions"],
         "configurations_run": n_cfg, "histories_run": n_hist,
         "schedule_executions": tot["executions"], "per_schedule_exploration": per_sched,
-        "programs": list(C), "samples": samples,
+        "programs": len(C), "program_names": list(C), "samples": samples,
         "phases_schedule_explored": ["resolve symbols", "find required sections", "merge strings"],
         "phases_config_only": ["open input files", "symbol db population", "section resolution",
                                "size finalisation", "writing"],
